@@ -125,12 +125,15 @@ def layouts(tier):
 
 def block_class(layout, ds_events, col, eid):
     """How the column of this event's block was consolidated at flush time (writer.consolidateColumnTypes):
+    nocol  - no event of the block has the column
     pure   - one kind, or int+float
     nummix - numeric strings together with numbers (and nothing else): converted to numbers
     strmix - text or bool together with anything else: converted to strings"""
     for rows, _ in layout["parts"]:
         if eid in rows:
             kinds = set(ds_events[r]["f"][col]["k"] for r in rows) - {"absent"}
+            if not kinds:
+                return "nocol"      # the column does not exist in this block at all
             if len(kinds) <= 1 or kinds <= {"int", "flt"}:
                 return "pure"
             if kinds <= {"int", "flt", "numstr"}:
@@ -220,8 +223,8 @@ def rel_eval(rel, res):
             return "`*` on [%d,%d] returned %s, events with a timestamp in the range are %s" % (rel["q"][1], rel["q"][2], uni, rel["universe"])
         want = set(full) & set(rel["universe"])
         if set(part) != want:
-            return "on [%d,%d] got %s; the same filter on the whole range gave %s, of which %s lie in the range" % (
-                rel["q"][1], rel["q"][2], part, full, sorted(want))
+            return "`%s` on [%d,%d] got %s; the same filter on the whole range gave %s, of which %s lie in the range" % (
+                rel["q"][0], rel["q"][1], rel["q"][2], part, full, sorted(want))
         return None
     raise vlib.Infra("unknown relation " + t)
 
@@ -265,8 +268,17 @@ def model_runs(chk, quick):
     chk.cov["model_sensitivity"] = "Defect=int-vs-decimal (decimal literal never matches an int column) violates %s" % sorted(set(r2.violated))
 
 
+def extra_known(chk):
+    """VERIF_EXTRA_KNOWN=<file in known_findings.json format>: additional findings for this run (used to demonstrate that a
+    mutant produces a NEW signature while the proposed findings of docs/C02.known_findings.json are not yet registered)."""
+    p = os.environ.get("VERIF_EXTRA_KNOWN")
+    if p:
+        chk.kf = chk.kf + [k for k in json.load(open(p)).get("findings", []) if k["property"] == chk.pid]
+
+
 def run(chk):
     quick = chk.tier == "quick"
+    extra_known(chk)
     rnd = random.Random(chk.seed)
     t0 = T0 + 1000 * rnd.randrange(0, 100000)
     binary = vlib.build_driver()
@@ -280,8 +292,11 @@ def run(chk):
     full = lambda text: (text, LO, HI)
     UNI = full("*")
 
-    queries = {UNI: 1}
+    WIDE = ("*", -100000, 10000000)           # ingest sanity: every event, far from any range boundary
+    queries = {UNI: 1, WIDE: 1}
     rels = []      # (relation, keyinfo)
+    rels.append((dict(type="range", q=UNI, u=UNI, full=WIDE, universe=list(range(10))),
+                 dict(kind="range", lo=LO, hi=HI, e=dict(o="id", L=dict(o="id", a=1, b=1), R=dict(o="id", a=1, b=1)))))
 
     # ---- leaves of the full product
     leaves = vlib.dedup([x for x in gens["leaf"] if x["kind"] == "leaf"])
@@ -367,7 +382,14 @@ def run(chk):
     col_of = lambda lf: lf["col"] if lf["t"] == "cmp" else None
     leafcase = {leaf_text(lc["leaf"]): lc for lc in leaves}
 
-    def suspect_ids(lfs, res):
+    DUAL = {"=": "!=", "!=": "=", "<": ">=", ">=": "<", ">": "<=", "<=": ">"}
+
+    def suspect_ids(lfs, res, with_dual=False):
+        if with_dual:
+            lfs = list(lfs) + [dict(x, op=DUAL[x["op"]]) for x in lfs if x["t"] == "cmp"]
+        return suspect_ids0([x for x in lfs if leaf_text(x) in leafcase], res)
+
+    def suspect_ids0(lfs, res):
         """ids on which one of these leaves is outside its own bounds in this layout, has an open cell, or whose event lacks
         the leaf's column: a composite that goes wrong only there is attributed to that leaf-level finding."""
         sus = set()
@@ -387,8 +409,8 @@ def run(chk):
             report("C02:driver-died", "engine process died while answering filter queries on layout %s: %s" % (layout["name"], res),
                    dict(layout=layout, events=events, t0=t0, relations=[]))
             continue
-        if sorted(res[UNI]) != list(range(10)):
-            raise vlib.Infra("layout %s: `*` returned %s instead of all 10 events (ingest problem, not a filter verdict)" % (layout["name"], res[UNI]))
+        if sorted(res[WIDE]) != list(range(10)):
+            raise vlib.Infra("layout %s: `*` returned %s instead of all 10 events (ingest problem, not a filter verdict)" % (layout["name"], res[WIDE]))
         chk.replayed(1)
         for rel, info in rels:
             bad = rel_eval(rel, res)
@@ -408,10 +430,12 @@ def run(chk):
                     eid = sorted(miss or extra)[0]
                     direction = "missing" if miss else "extra"
                     if lf["t"] == "cmp":
-                        key = "C02:leaf:%s~%s:%s:%s@%s" % (ds_events[eid]["f"][lf["col"]]["k"], lf["lit"]["lk"], opclass(lf["op"]), direction,
-                                                           block_class(layout, ds_events, lf["col"], eid))
+                        key = "C02:leaf@%s:%s~%s:%s:%s" % (block_class(layout, ds_events, lf["col"], eid), ds_events[eid]["f"][lf["col"]]["k"],
+                                                           lf["lit"]["lk"], opclass(lf["op"]), direction)
                     else:
-                        key = "C02:free-text:%s:%s" % ("wildcard" if "*" in lf["lit"]["c"] else ("phrase" if " " in lf["lit"]["c"] else "term"), direction)
+                        sparse = any(block_class(layout, ds_events, c, eid) == "nocol" for c in ("ci", "cf", "cn", "ct", "cb", "cm"))
+                        key = "C02:free-text@%s:%s:%s" % ("nocol" if sparse else "pure", "wildcard" if "*" in lf["lit"]["c"] else
+                                                          ("phrase" if " " in lf["lit"]["c"] else "term"), direction)
                 report(key, "layout %s: `%s` %s" % (layout["name"], rel["q"][0], bad), rp)
             elif k == "where":
                 lf = info["leaf"]
@@ -420,8 +444,8 @@ def run(chk):
                 ids = set(rel["ids"])
                 ok = lambda x: set(rel["must"]) & ids <= x <= set(rel["may"]) & ids
                 side = "where-wrong" if ok(a) and not ok(b) else "search-wrong" if ok(b) and not ok(a) else "both-open" if ok(a) and ok(b) else "both-wrong"
-                key = "C02:search-vs-where:%s:%s~%s:%s@%s" % (side, ds_events[eid]["f"][lf["col"]]["k"], lf["lit"]["lk"], opclass(lf["op"]),
-                                                          block_class(layout, ds_events, lf["col"], eid))
+                key = "C02:search-vs-where@%s:%s:%s~%s:%s" % (block_class(layout, ds_events, lf["col"], eid), side,
+                                                             ds_events[eid]["f"][lf["col"]]["k"], lf["lit"]["lk"], opclass(lf["op"]))
                 report(key, "layout %s: `%s` %s" % (layout["name"], rel["a"][0], bad), rp)
             elif k == "algebra":
                 got, l, r, u = (res[tuple(rel[x])] for x in ("res", "l", "r", "u"))
@@ -433,7 +457,7 @@ def run(chk):
                     cols = [col_of(x) for x in info["leaves"] if col_of(x)]
                     lacking = set(i for i in diff if any(ds_events[i]["f"][c]["k"] == "absent" for c in cols))
                     has_term = any(x["t"] == "term" for x in info["leaves"])
-                    sus = suspect_ids(info["leaves"], res)
+                    sus = suspect_ids(info["leaves"], res, with_dual="NOT" in rel["res"][0])
                     if info["op"] == "not":
                         cls = "absent-field" if diff <= lacking else "free-text" if has_term else "open-or-defective-leaf" if diff <= sus else "plain"
                     else:
@@ -453,9 +477,10 @@ def run(chk):
                 lv = leafsets[0]
                 e = info["e"]
                 lfs = [lv[e["L"]["a"] - 1]]
-                derived = sorted(uni) == sorted(rel["universe"]) and d <= suspect_ids(lfs, res)
+                derived = sorted(uni) == sorted(rel["universe"]) and d <= suspect_ids(lfs, res, with_dual=True)
+                negterm = e["o"] == "not" and lfs[0]["t"] == "term"
                 key = "C02:time-range:%s:%s" % (pos, "match-all" if sorted(uni) != sorted(rel["universe"]) else
-                                                "open-or-defective-leaf" if derived else "filter")
+                                                "negated-free-text" if negterm else "open-or-defective-leaf" if derived else "filter")
                 report(key, "layout %s: %s" % (layout["name"], bad), rp)
             # kind "expr" (bounds of a composite) is implied by leaf bounds + algebra; it is counted, not reported
 
